@@ -13,6 +13,13 @@ pub open spec fn field(w: u64, off: u64, bits: u64) -> u64 { (w >> off) & mask_o
 
 @@BitPackedInts@@
 
+// rule R16: the fold step of Iterator::max over u64
+fn opt_max_u64(a: Option<u64>, b: u64) -> (r: Option<u64>)
+    ensures r is Some, (r->0) >= b, a is Some ==> (r->0) >= (a->0), r == Some(b) || r == a,
+{
+    match a { None => Some(b), Some(cur) => if b > cur { Some(b) } else { Some(cur) } }
+}
+
 proof fn lemma_set_same(w: u64, v: u64, off: u64, bits: u64)
     requires 1 <= bits <= 64, off + bits <= 64, v <= mask_of(bits), field(w, off, bits) == 0,
     ensures field(w | ((v & mask_of(bits)) << off), off, bits) == v,
@@ -30,6 +37,11 @@ proof fn lemma_set_other(w: u64, v: u64, off: u64, off2: u64, bits: u64)
         ==> (((w | ((v & (if bits >= 64 { u64::MAX } else { ((1u64 << bits) - 1) as u64 })) << off)) >> off2) & (if bits >= 64 { u64::MAX } else { ((1u64 << bits) - 1) as u64 }))
             == ((w >> off2) & (if bits >= 64 { u64::MAX } else { ((1u64 << bits) - 1) as u64 }))) by (bit_vector);
 }
+
+proof fn lemma_mask_mono(m: u64, bits: u64, v: u64)
+    requires m <= mask_of(bits), v <= m
+    ensures v <= mask_of(bits)
+{ }
 
 proof fn lemma_idx(i: int, bits: int, len: int, count: int)
     requires 1 <= bits <= 64, 0 <= i < count, len * (64int / bits) >= count,
@@ -61,6 +73,10 @@ impl BitPackedInts {
     pub open spec fn elem(&self, i: int) -> u64 { elem_of(self.data@, self.bits_per_value, i) }
     pub open spec fn view(&self) -> Seq<u64> { view_of(self.data@, self.bits_per_value, self.count) }
 
+    @@BitPackedInts::bits_needed@@
+
+    @@BitPackedInts::pack@@
+
     @@BitPackedInts::pack_with_bits@@
 
     @@BitPackedInts::unpack@@
@@ -70,6 +86,80 @@ impl BitPackedInts {
     @@BitPackedInts::len@@
 
     @@BitPackedInts::is_empty@@
+
+    @@BitPackedInts::bits_per_value@@
+}
+
+@@DeltaBitPacked@@
+
+// ---- delta + bit-packing: the same wrapping prefix sums as DeltaEncoding ------------------------------
+pub open spec fn wadd(a: u64, b: u64) -> u64 { ((a as int + b as int) % 0x1_0000_0000_0000_0000int) as u64 }
+pub open spec fn prefix(base: u64, ds: Seq<u64>) -> Seq<u64>
+    decreases ds.len()
+{
+    if ds.len() == 0 { seq![base] }
+    else { prefix(base, ds.drop_last()).push(wadd(prefix(base, ds.drop_last()).last(), ds.last())) }
+}
+proof fn lemma_prefix_len(base: u64, ds: Seq<u64>)
+    ensures prefix(base, ds).len() == ds.len() + 1
+    decreases ds.len()
+{ if ds.len() > 0 { lemma_prefix_len(base, ds.drop_last()); } }
+pub open spec fn diffs(v: Seq<u64>) -> Seq<u64> { Seq::new((v.len() - 1) as nat, |i: int| (v[i + 1] - v[i]) as u64) }
+pub open spec fn sorted(v: Seq<u64>) -> bool { forall|i: int, j: int| 0 <= i <= j < v.len() ==> v[i] <= v[j] }
+proof fn lemma_roundtrip(v: Seq<u64>)
+    requires v.len() >= 1, sorted(v),
+    ensures prefix(v[0], diffs(v)) == v,
+    decreases v.len()
+{
+    if v.len() == 1 {
+        assert(diffs(v) =~= Seq::<u64>::empty());
+        assert(prefix(v[0], diffs(v)) =~= v);
+    } else {
+        let w = v.drop_last();
+        lemma_roundtrip(w);
+        assert(diffs(v).drop_last() =~= diffs(w));
+        lemma_prefix_len(v[0], diffs(w));
+        let n = v.len() as int;
+        assert(diffs(v).last() == (v[n - 1] - v[n - 2]) as u64);
+        assert(wadd(v[n - 2], (v[n - 1] - v[n - 2]) as u64) == v[n - 1]);
+        assert(prefix(v[0], diffs(v)) =~= v);
+    }
+}
+
+impl DeltaBitPacked {
+    pub open spec fn wf(&self) -> bool { self.deltas.wf() && self.deltas.count < usize::MAX }
+    /// the "empty" encoding (the fix of 507baaa: a single 0 has width 1, the empty sequence width 0)
+    pub open spec fn empty_enc(&self) -> bool { self.deltas.count == 0 && self.base == 0 && self.deltas.bits_per_value == 0 }
+    pub open spec fn view(&self) -> Seq<u64> { if self.empty_enc() { Seq::empty() } else { prefix(self.base, self.deltas.view()) } }
+
+    @@DeltaBitPacked::encode@@
+
+    @@DeltaBitPacked::decode@@
+
+    @@DeltaBitPacked::len@@
+
+    @@DeltaBitPacked::is_empty@@
+}
+
+// C15: delta + bit-packing is lossless on sorted input of every length (0 and 1 included), and len() is the length
+fn roundtrip_delta_bitpacked(values: &[u64]) -> (out: Vec<u64>)
+    requires sorted(values@), values@.len() + 64 <= usize::MAX,
+    ensures out@ == values@,
+{
+    let e = DeltaBitPacked::encode(values);
+    let n = e.len();
+    proof { lemma_prefix_len(e.base, e.deltas.view()); }
+    assert(n == values@.len());
+    e.decode()
+}
+
+// C15 with the automatic width: unpack(pack(v)) == v and get(i) == v[i], for every length.
+fn roundtrip_auto_width(values: &[u64]) -> (out: Vec<u64>)
+    requires values@.len() + 64 <= usize::MAX,
+    ensures out@ == values@
+{
+    let p = BitPackedInts::pack(values);
+    p.unpack()
 }
 
 // C15 at the level of contracts only: unpack(pack_with_bits(v, w)) == v and get(i) == v[i].
@@ -101,6 +191,24 @@ fn main() {}
 def build(repo):
     u = Unit('bitpack', ['C15'], repo, TEMPLATE)
     u.item(SRC, 'struct', 'BitPackedInts').D1(keep_derive=set()).V1()
+
+
+    # bits_needed: leading_zeros bit trick; contract proved for all 2^64 inputs by Kani (harness bits_needed_tight), assumed here
+    f = u.method(SRC, 'BitPackedInts', 'bits_needed').D1().ret('r')
+    f.sig_attr('#[verifier::external_body]')
+    f.ensures('fits', '1 <= r <= 64 && value <= mask_of(r as u64)')
+    u.trust('external_body bits_needed', 'leading_zeros bit trick: `1 <= r <= 64 && value < 2^r` is proved for all 2^64 inputs by Kani unit codec_kani (bits_needed_tight), not by Verus')
+
+    f = u.method(SRC, 'BitPackedInts', 'pack').D1().R16('max_value', 'u64').ret('r')
+    f.requires('len', 'values@.len() + 64 <= usize::MAX')
+    f.ensures('wf', 'r.wf()')
+    f.ensures('view', 'r.view() == values@')
+    f.ensures('count', 'r.count == values@.len()')
+    f.ensures('empty_has_width_zero', 'values@.len() == 0 ==> r.bits_per_value == 0')
+    L = f.loop(0).kind('for')
+    L.invariants(('some', 'i__ > 0 ==> max_value__max is Some'), ('max_so_far', 'forall|k: int| 0 <= k < i__ ==> values@[k] <= max_value__max.unwrap()'))
+    f.before('let bits', 'proof { assert forall|k: int| 0 <= k < values@.len() implies values@[k] <= max_value by { } }')
+    f.before_tail('proof { assert forall|k: int| 0 <= k < values@.len() implies values@[k] <= mask_of(bits as u64) by { assert(values@[k] <= max_value); lemma_mask_mono(max_value, bits as u64, values@[k]); } }')
 
     # ---- pack_with_bits -----------------------------------------------------------------------
     f = u.method(SRC, 'BitPackedInts', 'pack_with_bits').D1()
@@ -193,7 +301,43 @@ proof {
     f = u.method(SRC, 'BitPackedInts', 'is_empty').D1().ret('r')
     f.ensures('count', 'r == (self.count == 0)')
 
-    u.not_covered += ['BitPackedInts::pack (iter().copied().max(): Kani bounded stand-in), bits_needed (Kani complete), to_bytes/from_bytes (Kani bounded), compression_ratio (f64)',
-                      'DeltaBitPacked::encode (windows().map().collect(): Kani bounded stand-in)']
-    u.assume('pack_with_bits precondition "every value fits the width" is what the only callers (pack via bits_needed of the maximum; DeltaBitPacked via pack) establish; pack itself is checked by a bounded Kani harness')
+
+    f = u.method(SRC, 'BitPackedInts', 'bits_per_value').D1().ret('r')
+    f.ensures('field', 'r == self.bits_per_value')
+
+    # ---- DeltaBitPacked ---------------------------------------------------------------------------------
+    u.item(SRC, 'struct', 'DeltaBitPacked').D1(keep_derive=set()).V1()
+    f = u.method(SRC, 'DeltaBitPacked', 'encode').D1().R15('delta_values').ret('r')
+    f.requires('sorted', 'sorted(values@)')
+    f.requires('len', 'values@.len() + 64 <= usize::MAX')
+    f.ensures('wf', 'r.wf()')
+    f.ensures('view', 'r.view() == values@')
+    L = f.loop(0).kind('for')
+    L.invariants(('sorted', 'sorted(values@) && values@.len() > 0'),
+                 ('prefix', 'delta_values@.len() == i__ - 1 && forall|k: int| 0 <= k < i__ - 1 ==> #[trigger] delta_values@[k] == (values@[k + 1] - values@[k]) as u64'))
+    L.after('proof { assert(delta_values@ =~= diffs(values@)); lemma_roundtrip(values@); }')
+    f.before('return Self', 'proof { assert(values@ =~= Seq::<u64>::empty()); }')
+    f.before_tail('proof { assert(deltas.view() == diffs(values@)); assert(deltas.view().len() == deltas.count); lemma_prefix_len(base, deltas.view()); }')
+
+    f = u.method(SRC, 'DeltaBitPacked', 'decode').D1().ret('r')
+    f.requires('wf', 'self.wf()')
+    f.ensures('view', 'r@ == self.view()')
+    L = f.loop(0).kind('for').iter('it')
+    L.before('let ghost ds = delta_values@;\nproof { assert(ds.take(0) =~= Seq::<u64>::empty()); }')
+    L.invariants(('prefix', 'result@ == prefix(self.base, ds.take(it.index@ as int))'),
+                 ('current', 'current == result@.last() && result@.len() >= 1'),
+                 ('iter', 'it.seq() == ds'))
+    L.body_end('''proof {
+    let t = ds.take(it.index@ + 1);
+    assert(t.drop_last() =~= ds.take(it.index@ as int));
+    assert(t.last() == delta);
+}''')
+    L.after('proof { assert(ds.take(ds.len() as int) =~= ds); }')
+
+    f = u.method(SRC, 'DeltaBitPacked', 'len').D1().ret('r')
+    f.requires('wf', 'self.wf()')
+    f.ensures('len', 'r == (if self.empty_enc() { 0int } else { self.deltas.count + 1 })')
+    f = u.method(SRC, 'DeltaBitPacked', 'is_empty').D1().ret('r')
+    f.ensures('empty', 'r == self.empty_enc()')
+    u.not_covered += ['BitPackedInts::{to_bytes, from_bytes} (Kani bounded), compression_ratio (f64)', 'DeltaBitPacked::{to_bytes, from_bytes, compression_ratio}']
     return u
